@@ -174,6 +174,23 @@ pub fn c02_literal_arrays() {
     std::mem::forget(a2);
 }
 
+//@ harness: c02_literal_array_emptyobj tier=quick timeout=900 kind=main mem=10
+//@ encodes: Parsed::from_value, op::op_from_map, Raw::evaluate
+//@ bound: arrays [n, {}] and [{}] (an object element, but not an operation): parsed as Raw, evaluate to the very same value (pointer identity)
+//@ cuts: evaluate
+#[cfg_attr(kani, kani::proof)]
+#[cfg_attr(kani, kani::unwind(6))]
+#[cfg_attr(kani, kani::stub(std::fmt::format, stub_format))]
+#[cfg_attr(verif_replay, test)]
+pub fn c02_literal_array_emptyobj() {
+    let a = Value::Array(vec![Value::Number(Number::from(in_i64::<1>())), Value::Object(Map::new())]);
+    literal_identity(&a);
+    let b = Value::Array(vec![Value::Object(Map::new())]);
+    literal_identity(&b);
+    std::mem::forget(a);
+    std::mem::forget(b);
+}
+
 pub fn object_case(k: u8) {
     let mut m = Map::new();
     match k {
